@@ -39,11 +39,11 @@ package security
 //@ func CheckPAACookie
 //@   requires[C10] wf: hasTunnel(ctx) && ctxTunnel(ctx).User != nil && tunnelUser(ctx) != nil
 //@   assigns[C07] ctxTunnel(ctx).TargetServer, ctxTunnel(ctx).RemoteAddr, tunnelUser(ctx).userName
-//@   assigns #lastNow, #parsedTok, #parsedFrom, #macOK, #macTok, #macKey, #claimsStd, #claimsExtra, #validatedOK, #validatedIssuer, #validatedAt, #userinfoOK, #userinfoToken, #tokenSourceAT
+//@   assigns #lastNow, #parsedTok, #parsedFrom, #macOK, #macTok, #macKey, #claimsStd, #claimsExtra, #validatedOK, #validatedIssuer, #validatedAt, #validatedLeeway, #userinfoOK, #userinfoToken, #tokenSourceAT
 //@   loop 0 invariant hdr: -1 <= rangeindex && rangeindex < len(token.Headers)
 //@   ensures[C02] parsed: result0 ==> tokenString != "" && #parsedFrom == tokenString && #parsedTok != nil
 //@   ensures[C02] mac: result0 ==> #macOK && #macTok == #parsedTok && #macKey == old(SigningKey)
-//@   ensures[C02] validated: result0 ==> #validatedOK && #validatedIssuer == "rdpgw" && #validatedAt == #lastNow
+//@   ensures[C02] validated: result0 ==> #validatedOK && #validatedIssuer == "rdpgw" && #validatedAt == #lastNow && 0 <= #validatedLeeway && #validatedLeeway <= 60000000000
 //@   ensures[C02] userinfo: result0 ==> #userinfoOK && #userinfoToken == dyn(#claimsExtra, ptr(customClaims)).AccessToken
 //@   ensures[C02] noerr: result0 == (result1 == nil)
 //@   ensures[C04] bound: result0 ==> ctxTunnel(ctx).RemoteAddr == dyn(#claimsExtra, ptr(customClaims)).ClientIP && ctxTunnel(ctx).TargetServer == dyn(#claimsExtra, ptr(customClaims)).RemoteServer
@@ -77,21 +77,21 @@ package security
 //@   nopanic[C10]
 
 //@ func UserInfo
-//@   assigns #lastNow, #encParsed, #encParsedFrom, #nestedParsed, #decryptOK, #decryptKey, #decryptOf, #macOK, #macTok, #macKey, #claimsStd, #claimsExtra, #validatedOK, #validatedIssuer, #validatedAt
-//@   ensures[C15] validated: result1 == nil ==> #validatedOK && #validatedIssuer == "rdpgw" && #validatedAt == #lastNow
+//@   assigns #lastNow, #encParsed, #encParsedFrom, #nestedParsed, #decryptOK, #decryptKey, #decryptOf, #macOK, #macTok, #macKey, #claimsStd, #claimsExtra, #validatedOK, #validatedIssuer, #validatedAt, #validatedLeeway
+//@   ensures[C15] validated: result1 == nil ==> #validatedOK && #validatedIssuer == "rdpgw" && #validatedAt == #lastNow && #validatedLeeway == 0
 //@   ensures[C15] signedMode: result1 == nil && len(UserEncryptionKey) > 0 && len(UserSigningKey) > 0 ==> #encParsedFrom == token && #decryptOK && #decryptOf == #nestedParsed && #decryptKey == UserEncryptionKey && #macOK && #macTok == #encParsed && #macKey == UserSigningKey
 //@   ensures[C15] encryptOnlyMode: result1 == nil && len(UserSigningKey) == 0 ==> #encParsedFrom == token && #macOK && #macTok == #encParsed && #macKey == UserEncryptionKey
 //@   ensures[C15] noKeyNoToken: result1 == nil ==> len(UserSigningKey) == 0 || len(UserEncryptionKey) > 0
 //@   ensures[C15] claims: result1 == nil ==> result0 == *dyn(#claimsStd, ptr(jwt.Claims))
-//@   site (github.com/go-jose/go-jose/v4/jwt.Claims).Validate requires[C15] expected: arg1.Issuer == "rdpgw"
+//@   site (github.com/go-jose/go-jose/v4/jwt.Claims).ValidateWithLeeway requires[C15] expected: arg1.Issuer == "rdpgw"
 //@   nopanic[C10]
 
 //@ func QueryInfo
-//@   assigns #lastNow, #parsedTok, #parsedFrom, #macOK, #macTok, #macKey, #claimsStd, #claimsExtra, #validatedOK, #validatedIssuer, #validatedAt
-//@   ensures[C12] verified: result1 == nil ==> #parsedFrom == tokenString && #macOK && #macTok == #parsedTok && #macKey == QuerySigningKey && #validatedOK && #validatedIssuer == issuer && #validatedAt == #lastNow
+//@   assigns #lastNow, #parsedTok, #parsedFrom, #macOK, #macTok, #macKey, #claimsStd, #claimsExtra, #validatedOK, #validatedIssuer, #validatedAt, #validatedLeeway
+//@   ensures[C12] verified: result1 == nil ==> #parsedFrom == tokenString && #macOK && #macTok == #parsedTok && #macKey == QuerySigningKey && #validatedOK && #validatedIssuer == issuer && #validatedAt == #lastNow && #validatedLeeway == 0
 //@   ensures[C12] subject: result1 == nil ==> result0 == dyn(#claimsStd, ptr(jwt.Claims)).Subject
 //@   ensures[C12] failed: result1 != nil ==> result0 == ""
-//@   site (github.com/go-jose/go-jose/v4/jwt.Claims).Validate requires[C12] verifiedClaims: arg0 == *dyn(#claimsStd, ptr(jwt.Claims)) && arg1.Issuer == issuer
+//@   site (github.com/go-jose/go-jose/v4/jwt.Claims).ValidateWithLeeway requires[C12] verifiedClaims: arg0 == *dyn(#claimsStd, ptr(jwt.Claims)) && arg1.Issuer == issuer
 //@   nopanic[C10]
 
 //@ func GenerateRandomBytes
